@@ -284,6 +284,18 @@ def check_siblings(ctx, db):
                   'the length consumed by a placed bend is not deducted from the following section: %s' % upd)
 
 
+def check_dimensions(ctx, db):
+    """R-DIM: additions, subtractions and comparisons in the outline code combine equal powers of length"""
+    from .. import dims
+    seeds = {'tolerance': 1, 'tolerance_sq': 2, 'tol_sq': 2, 'spine_points': 1, 'half_widths': 1, 'offsets': 1, 'path_offsets': 1, 'path_half_widths': 1, 'bend_radius': 1, 'radius': 1, 'center_radius': 1, 'half_width_and_offset': 1, 'point_array': 1, 'end_extensions': 1, 'width': 1, 'offset': 1, 'half_width': 1, 'p': 1, 'p0': 1, 'p1': 1, 'p2': 1, 'p3': 1, 'p_next': 1, 'center': 1, 'cap_l': 1, 'cap_r': 1}
+    n = 0
+    for qn, mins in (('gdstk::FlexPath::to_polygons', 100), ('gdstk::FlexPath::element_center', 30), ('gdstk::FlexPath::remove_overlapping_points', 2)):
+        f = db.fn(qn)
+        ctx.touch(f)
+        n += dims.check(ctx, f, seeds, min_sites=mins)
+    ctx.require('R-DIM resolved sites', n, 130)
+
+
 def run(ctx):
     db = ctx.db
     check_bookkeeping(ctx, db)
@@ -291,10 +303,11 @@ def run(ctx):
     check_enums(ctx, db)
     check_bounds(ctx, db)
     check_siblings(ctx, db)
+    check_dimensions(ctx, db)
 
 
 MANIFEST = dict(
-    text='Decides structural necessary conditions of FlexPath consistency on every path: every call that makes the spine grow (the appending Curve methods are discovered by closure over curve.cpp) is followed by fill_offsets_and_widths, which gives every element exactly the missing number of entries with the width halved; the four init overloads add one point and one entry per element; remove_overlapping_points removes the same index from the spine and from every element and advances only otherwise; GDSII WIDTH is twice and OASIS half-width exactly the stored half-width of entry 0 with the centre line from element_center after overlap removal; all End/Join/Bend enumerators are handled at both ends/sides in to_polygons and the PATHTYPE table equals RobustPath\'s; loops over width/offset entries are bounded by the spine count; the look-ahead intersection and the bend-room bookkeeping (previous/next straight length, required length, deduction when a bend is placed) are identical in to_polygons and element_center. The outline geometry (joins, bends, caps) is not decided.',
+    text='(R-DIM) A powers-of-length analysis of to_polygons, element_center and remove_overlapping_points finds every addition and comparison dimensionally consistent (lengths with lengths, squared tolerances with squared distances); Decides structural necessary conditions of FlexPath consistency on every path: every call that makes the spine grow (the appending Curve methods are discovered by closure over curve.cpp) is followed by fill_offsets_and_widths, which gives every element exactly the missing number of entries with the width halved; the four init overloads add one point and one entry per element; remove_overlapping_points removes the same index from the spine and from every element and advances only otherwise; GDSII WIDTH is twice and OASIS half-width exactly the stored half-width of entry 0 with the centre line from element_center after overlap removal; all End/Join/Bend enumerators are handled at both ends/sides in to_polygons and the PATHTYPE table equals RobustPath\'s; loops over width/offset entries are bounded by the spine count; the look-ahead intersection and the bend-room bookkeeping (previous/next straight length, required length, deduction when a bend is placed) are identical in to_polygons and element_center. The outline geometry (joins, bends, caps) is not decided.',
     note='Trusted: clang front end, gx, sa rules; Curve internals are C15\'s subject.',
     technique='post-dominance pairing over the CFG with a discovered trigger set + unit/shape rules + enum coverage + sibling tables + sibling-definition comparison of the shared look-ahead/bend computation',
     design='§4 C07')
